@@ -159,6 +159,15 @@ def _check_decay(eas, beta, tauBeta, tauLorentz, u):
     with cut("EAS.altDec(constant u)"):
         alt4, len4 = [np.asarray(x, dtype=np.float64) for x in eas.altDec(beta, tauBeta, tauLorentz, np.full(n, c))]
     require(alt3.tobytes() == alt4.tobytes() and len3.tobytes() == len4.tobytes(), "internally generated numbers give different decay points than the same numbers supplied explicitly")
+    # one number for the whole batch, in the forms a caller may write it: a plain scalar or a one-element array
+    # broadcast over the events exactly like an array filled with that number
+    for form in (c, np.float64(c), np.array([c])):
+        with cut(f"EAS.altDec(u given as {type(form).__name__} of size {np.size(form)})"):
+            alt5, len5 = [np.asarray(x, dtype=np.float64) for x in eas.altDec(beta, tauBeta, tauLorentz, form)]
+        require(
+            np.broadcast_to(alt5, alt4.shape).tobytes() == alt4.tobytes() and np.broadcast_to(len5, len4.shape).tobytes() == len4.tobytes(),
+            f"a single random number given as {type(form).__name__} (size {np.size(form)}) is not applied to all {n} events: decay lengths {np.ravel(len5)[:3].tolist()} instead of {len4[:3].tolist()}",
+        )
     return alt, length
 
 
@@ -214,6 +223,33 @@ def _nt(labels):
     return bool(labels & {"beta==42deg", "min_energy_row", "u_end", "angle_end", "below_min_angle"})
 
 
+
+def _body_options(case):
+    from .c11 import body_options
+
+    return body_options(case)
+
+
+def _options_strategy():
+    from . import c11
+    from . import geomcommon as gc
+
+    return st.fixed_dictionaries(
+        {
+            "kind": st.just("taus"),
+            "n": st.sampled_from([40, 25]),
+            "pick": st.integers(0, 7),
+            "nopts": st.sampled_from([2, 3]),
+            "rows3": c11.rows3,
+            "rows4": gc.points(4, 8),
+            "cfg": gc.geom_config(),
+            "version": version_st,
+            "spectrum": st.sampled_from([{"id": "monospectrum", "log_nu_energy": 9.25}, {"id": "powerspectrum", "index": 2.0, "lower_bound": 6.0, "upper_bound": 12.0}, {"id": "powerspectrum", "index": 1.0, "lower_bound": 7.0, "upper_bound": 9.0}]),
+            "det": st.just(525.0),
+            "c": st.floats(0.01, 0.99),
+        }
+    )
+
 SUBCHECKS = [
     SubCheck(
         "chain",
@@ -246,5 +282,14 @@ SUBCHECKS = [
         lambda labels: bool(labels & {"strict_u", "strict_beta"}),
         {"quick": 800, "thorough": 40000},
         doc="pairs u1<u2, beta1<beta2: length decreasing in u, altitude increasing in length and in angle",
+    ),
+    SubCheck(
+        "options",
+        _options_strategy(),
+        _body_options,
+        lambda labels: "plot_name" in labels,
+        {"quick": 8, "thorough": 200},
+        doc="results handed back to the caller are identical with and without plotting/storing options (shared with C11/options, restricted to this stage)",
+        shrink=False,
     ),
 ]
